@@ -44,6 +44,17 @@ open GoldilocksVerif
   ⟨sel k 0 (a.l0 + b.l0) src.l0, sel k 1 (a.l1 + b.l1) src.l1, sel k 2 (a.l2 + b.l2) src.l2,
    sel k 3 (a.l3 + b.l3) src.l3, sel k 4 (a.l4 + b.l4) src.l4, sel k 5 (a.l5 + b.l5) src.l5,
    sel k 6 (a.l6 + b.l6) src.l6, sel k 7 (a.l7 + b.l7) src.l7⟩
+/-- lane i := k[i] ? a-b : src  (not used by the pinned source; present so that a rewrite using it stays translatable) -/
+@[inline] def mask_sub_epi64 (src : V8) (k : BitVec 8) (a b : V8) : V8 :=
+  ⟨sel k 0 (a.l0 - b.l0) src.l0, sel k 1 (a.l1 - b.l1) src.l1, sel k 2 (a.l2 - b.l2) src.l2,
+   sel k 3 (a.l3 - b.l3) src.l3, sel k 4 (a.l4 - b.l4) src.l4, sel k 5 (a.l5 - b.l5) src.l5,
+   sel k 6 (a.l6 - b.l6) src.l6, sel k 7 (a.l7 - b.l7) src.l7⟩
+/-- further unsigned compares (clang expands the `_mm512_cmp*_epu64_mask` macros to `ucmpq512_mask`; these are
+  the by-name forms, same lane predicates as the immediates 1 / 2 / 0 / 4) -/
+@[inline] def cmplt_epu64_mask (a b : V8) : BitVec 8 := mask8 (fun x y => decide (x < y)) a b
+@[inline] def cmple_epu64_mask (a b : V8) : BitVec 8 := mask8 (fun x y => decide (x ≤ y)) a b
+@[inline] def cmpeq_epu64_mask (a b : V8) : BitVec 8 := mask8 (fun x y => x == y) a b
+@[inline] def cmpneq_epu64_mask (a b : V8) : BitVec 8 := mask8 (fun x y => x != y) a b
 /-- `vpblendmd`: 32-bit element i := k[i] ? b : a -/
 @[inline] def mask_blend_epi32 (k : BitVec 16) (a b : V8) : V8 :=
   let s (j : Nat) : Nat := (k.toNat / 4 ^ j) % 4
@@ -60,6 +71,8 @@ open GoldilocksVerif
    pick a b idx.l4, pick a b idx.l5, pick a b idx.l6, pick a b idx.l7⟩
 @[inline] def unpacklo_pd (a b : V8) : V8 := ⟨a.l0, b.l0, a.l2, b.l2, a.l4, b.l4, a.l6, b.l6⟩
 @[inline] def unpackhi_pd (a b : V8) : V8 := ⟨a.l1, b.l1, a.l3, b.l3, a.l5, b.l5, a.l7, b.l7⟩
+/-- `vbroadcasti64x4`: the 256-bit source in both halves -/
+@[inline] def broadcast_i64x4 (a : V4) : V8 := ⟨a.l0, a.l1, a.l2, a.l3, a.l0, a.l1, a.l2, a.l3⟩
 @[inline] def set_epi64 (e7 e6 e5 e4 e3 e2 e1 e0 : BitVec 64) : V8 := ⟨e0, e1, e2, e3, e4, e5, e6, e7⟩
 @[inline] def set4_epi64 (d c b a : BitVec 64) : V8 := ⟨a, b, c, d, a, b, c, d⟩
 @[inline] def set1_epi64 (e : BitVec 64) : V8 := ⟨e, e, e, e, e, e, e, e⟩
